@@ -16,7 +16,9 @@ pub mod c19;
 pub mod c20;
 pub mod c21;
 pub mod c22;
+pub mod c23;
 pub mod c24;
+pub mod c30;
 pub mod c29;
 
 use crate::common::{Ctx, Report};
@@ -40,7 +42,9 @@ pub fn dispatch(p: &str, ctx: &Ctx) -> Option<Report> {
         "C20" => c20::run(ctx),
         "C21" => c21::run(ctx),
         "C22" => c22::run(ctx),
+        "C23" => c23::run(ctx),
         "C24" => c24::run(ctx),
+        "C30" => c30::run(ctx),
         "C29" => c29::run(ctx),
         _ => return None,
     })
